@@ -598,6 +598,18 @@ func (fv *FV) havocFramed(st *State, locs []modLoc, tag string) {
 		}
 		st.heap.arrays[key] = nw
 	}
+	// every reference stored in the entry heap denotes an object that existed at entry
+	if fv.l.mode == ModeInt && !fv.entryRefAxioms {
+		fv.entryRefAxioms = true
+		h0 := Var("H_Ref_0", ArraySort(RefSort, RefSort))
+		q := Forall([]*Term{a}, Lt(mk("rootid", IntSort, Select(h0, a)), wm0))
+		q.Pats = [][]*Term{{Select(h0, a)}}
+		st.assume(q)
+		m0 := Var("M_Ref_0_0", ArraySort(RefSort, ArraySort(IntSort, RefSort)))
+		q2 := Forall([]*Term{a, j}, Lt(mk("rootid", IntSort, Select(Select(m0, a), j)), wm0))
+		q2.Pats = [][]*Term{{Select(Select(m0, a), j)}}
+		st.assume(q2)
+	}
 	// ghost state: only what the clause lists
 	var gl []modLoc
 	for _, m := range locs {
